@@ -265,6 +265,7 @@ func ruleMultiplicity(r *Run) {
 			}
 		}
 	}
+	r.executorEntries()
 	// direct sinks
 	for _, fn := range r.P.Funcs {
 		for _, e := range r.P.CG.Ext[fn] {
@@ -394,19 +395,7 @@ func ruleMultiplicity(r *Run) {
 					if lc, isLen := rc.Call.Args[0].(*ssa.Call); isLen {
 						if b, isB := lc.Call.Value.(*ssa.Builtin); isB && b.Name() == "len" && viaCell(lc.Call.Args[0]) == ssa.Value(c) {
 							// every use of the worker's index is groups[index]
-							okFan = true
-							for _, ref := range *mapF.Params[0].Referrers() {
-								ia, isIA := ref.(*ssa.IndexAddr)
-								if _, dbg := ref.(*ssa.DebugRef); dbg {
-									continue
-								}
-								if !isIA || ia.Index != ssa.Value(mapF.Params[0]) {
-									if st, isSt := ref.(*ssa.Store); isSt && st.Val == ssa.Value(mapF.Params[0]) {
-										continue // carried into the result for positional placement
-									}
-									okFan = false
-								}
-							}
+							okFan = indexOnlySelectsAndIsCarried(r, mapF.Params[0], true, 0)
 						}
 					}
 				}
@@ -1651,4 +1640,205 @@ func depthPassSites(r *Run, mgr *ssa.Function) []depthPass {
 		}
 	}
 	return out
+}
+
+// workerReturn is one way a fan-out worker hands back (value, error): a return of the worker
+// itself, or — when the worker returns the whole result of a module function (`return
+// de.executeGroup(index, groups[index])`) — a return of that function, with idx the value that
+// stands for the worker's index there (the parameter the index is passed for; nil when the
+// index is not handed in).
+type workerReturn struct {
+	ret      *ssa.Return
+	val, err ssa.Value
+	idx      ssa.Value
+}
+
+// workerReturns lists the returns of the worker f whose index is idx, looking through returns
+// that forward the two results of a call of a module function.
+func (r *Run) workerReturns(f *ssa.Function, idx ssa.Value, depth int) []workerReturn {
+	var out []workerReturn
+	for _, ret := range returnsOf(f) {
+		vals := retVals(ret)
+		if len(vals) != 2 {
+			out = append(out, workerReturn{ret: ret, idx: idx})
+			continue
+		}
+		e0, ok0 := vals[0].(*ssa.Extract)
+		e1, ok1 := vals[1].(*ssa.Extract)
+		if ok0 && ok1 && e0.Tuple == e1.Tuple && e0.Index == 0 && e1.Index == 1 && depth < 3 {
+			if c, ok := e0.Tuple.(*ssa.Call); ok {
+				if sc := c.Call.StaticCallee(); sc != nil {
+					if h := r.P.declared(sc); h != nil && inModule(h) && h.Blocks != nil && len(h.Params) == len(c.Call.Args) {
+						var in ssa.Value
+						for k, a := range c.Call.Args {
+							if idx != nil && unwrap(a) == idx {
+								in = h.Params[k]
+							}
+						}
+						out = append(out, r.workerReturns(h, in, depth+1)...)
+						continue
+					}
+				}
+			}
+		}
+		out = append(out, workerReturn{ret: ret, val: vals[0], err: vals[1], idx: idx})
+	}
+	return out
+}
+
+// indexOnlySelectsAndIsCarried: every use of the worker's index p is `list[p]` (the worker
+// takes the element at its own position), a store of p (carried into the result for positional
+// placement), or handing p to a function of the module in which the same holds for the
+// parameter it is passed for — there without further indexing: the list stays with the worker.
+func indexOnlySelectsAndIsCarried(r *Run, p *ssa.Parameter, mayIndex bool, depth int) bool {
+	if p.Referrers() == nil {
+		return true
+	}
+	for _, ref := range *p.Referrers() {
+		switch x := ref.(type) {
+		case *ssa.DebugRef:
+		case *ssa.IndexAddr:
+			if !mayIndex || x.Index != ssa.Value(p) {
+				return false
+			}
+		case *ssa.Store:
+			if x.Val != ssa.Value(p) {
+				return false
+			}
+		case *ssa.Call:
+			sc := x.Call.StaticCallee()
+			if sc == nil || depth >= 3 {
+				return false
+			}
+			h := r.P.declared(sc)
+			if h == nil || !inModule(h) || h.Blocks == nil || len(h.Params) != len(x.Call.Args) {
+				return false
+			}
+			for k, a := range x.Call.Args {
+				if a == ssa.Value(p) && !indexOnlySelectsAndIsCarried(r, h.Params[k], false, depth+1) {
+					return false
+				}
+			}
+		default:
+			return false
+		}
+	}
+	return true
+}
+
+// executorEntries (R12a.entry): the send chain does not start at ParallelExecutor.Execute but
+// where the request path enters the executor — at the calls of Executor.Execute (through the
+// interface or on an implementation). Who makes them is R4a's business (whoMayCall); this rule
+// asks how often: an entry is not inside a loop and is not made twice on one path, and the same
+// holds for every call on the way up from the entry to the function that runs once per
+// operation / per subscription event (the listed callers of the whoMayCall entry). A loop or a
+// second attempt above the executor delivers everything below it — mutations included — again.
+func (r *Run) executorEntries() {
+	const rule = "R12a.entry"
+	const execEntry = modPath + "/executor.Executor.Execute"
+	var iface *types.Interface
+	for _, p := range r.P.Pkgs {
+		if p.PkgPath == modPath+"/executor" && p.Types != nil {
+			if obj := p.Types.Scope().Lookup("Executor"); obj != nil {
+				iface, _ = obj.Type().Underlying().(*types.Interface)
+			}
+		}
+	}
+	role := map[*ssa.Function]bool{}
+	for _, c := range whoMayCall[execEntry].callers {
+		for _, f := range r.RoleFuncs(strings.TrimPrefix(c, "@")) {
+			role[f] = true
+		}
+	}
+	type level struct {
+		fn    *ssa.Function
+		sites map[ssa.Instruction]bool
+		what  string
+		depth int
+	}
+	var work []level
+	levelOf := map[*ssa.Function]int{}
+	add := func(fn *ssa.Function, site ssa.Instruction, what string, depth int) {
+		if i, ok := levelOf[fn]; ok {
+			work[i].sites[site] = true
+			return
+		}
+		levelOf[fn] = len(work)
+		work = append(work, level{fn, map[ssa.Instruction]bool{site: true}, what, depth})
+	}
+	n := 0
+	for _, fn := range r.P.Funcs {
+		for _, e := range r.P.CG.Ext[fn] {
+			if e.Name == execEntry {
+				n++
+				add(fn, e.Site, "Executor.Execute", 0)
+			}
+		}
+		for _, e := range r.P.CG.Out[fn] {
+			if e.Kind != "static" || iface == nil || e.Callee.Name() != "Execute" || e.Callee.Signature.Recv() == nil || topFn(fn) == topFn(e.Callee) {
+				continue
+			}
+			if types.Implements(e.Callee.Signature.Recv().Type(), iface) {
+				n++
+				add(fn, e.Site, "Executor.Execute", 0)
+			}
+		}
+	}
+	r.AtLeast(rule, "calls of Executor.Execute", n, 2)
+	const why = ": the whole execution of the operation — every request of every depth, a mutation included — is delivered to the services once more"
+	// on the way up: the calls of every function that enters the executor, until the function
+	// that runs once per operation / per event is reached (R1 and R8 say how often that runs)
+	for i := 0; i < len(work); i++ {
+		fn := work[i].fn
+		if role[fn] {
+			continue
+		}
+		if work[i].depth >= 6 {
+			r.Bad(rule, fnName(fn), "calls "+work[i].what, r.P.pos(fn.Pos()), "the calls that lead to the executor could not be followed up to a function that runs once per operation (more than 6 levels of helpers)")
+			continue
+		}
+		for _, e := range r.P.CG.In[fn] {
+			switch e.Kind {
+			case "param":
+				continue
+			case "extarg":
+				r.Bad(rule, fnName(e.Caller), "hands "+fnName(fn)+" to "+calleeDesc(e.Site.Common()), r.P.pos(e.Site.Pos()), "the function that enters the executor is handed to a library function that decides how often it runs"+why)
+				continue
+			case "hoarg":
+				if once, w := r.hofCallsOnce(e); !once {
+					r.Bad(rule, fnName(e.Caller), "hands "+fnName(fn)+" to a helper", r.P.pos(e.Site.Pos()), "the function that enters the executor is handed to a helper that can run it more than once ("+w+")"+why)
+					continue
+				}
+				if r.handsToFanOut(e) {
+					r.Bad(rule, fnName(e.Caller), "fans out "+fnName(fn), r.P.pos(e.Site.Pos()), "the function that enters the executor is handed to the fan-out helper below the function that runs once per operation: it runs once per element of whatever the helper is given"+why)
+					continue
+				}
+			}
+			add(e.Caller, e.Site, fnName(fn)+", which enters the executor", work[i].depth+1)
+		}
+	}
+	for _, lv := range work {
+		fn := lv.fn
+		looped := false
+		var first ssa.Instruction
+		for site := range lv.sites {
+			if first == nil || site.Pos() < first.Pos() {
+				first = site
+			}
+		}
+		for site := range lv.sites {
+			if inAnyLoop(site.Block()) {
+				looped = true
+				r.Bad(rule, fnName(fn), "calls "+lv.what, r.P.pos(site.Pos()), "the request path enters the executor from inside a loop of "+fnName(fn)+" (a retry, one run per element)"+why)
+			}
+		}
+		if looped {
+			continue
+		}
+		if max, _ := maxHopsOnPath(fn, lv.sites); max > 1 {
+			r.Bad(rule, fnName(fn), "calls "+lv.what, r.P.pos(first.Pos()), fmt.Sprintf("a path through %s enters the executor %d times (a second attempt)", fnName(fn), max)+why)
+			continue
+		}
+		r.OK(rule, fnName(fn), "calls "+lv.what, r.P.pos(first.Pos()), fmt.Sprintf("%d call site(s), none inside a loop, at most one on any path", len(lv.sites)))
+	}
 }
